@@ -216,9 +216,15 @@ var c17Scopes = []c17scope{
 	{`local function probe() R1, R2 = debug.getlocal(2, n); return 1 end; local a = x; local b = probe(); return R1, R2`, []string{"probe", "a"}, []string{"f", "x"}},
 	{`local function probe() R1, R2 = debug.getlocal(2, n) end; local function f(p, q) probe() end; f(x, y); return R1, R2`, []string{"p", "q"}, []string{"x", "y"}},
 	{`local function probe() R1, R2 = debug.getlocal(2, n) end; local a = x; for i = 1, 1 do local q = y; probe() end; return R1, R2`, []string{"probe", "a", "(for index)", "(for limit)", "(for step)", "i", "q"}, []string{"f", "x", "1", "1", "1", "1", "y"}},
+	// queried from a metamethod fired by the very first instruction of a scope (an ADD / GETTABLE on local operands
+	// right after a declaration, as the first instruction of a loop body): no CALL can sit there (round-6 seeded
+	// change C17-localname-startpc-exclusive)
+	{`local mt = {__add = function(a, b) R1, R2 = debug.getlocal(2, n); return 0 end}; local t = setmetatable({}, mt); local a = x; local z = t + t; return R1, R2`, []string{"mt", "t", "a"}, []string{"t", "t", "x"}},
+	{`local mt = {__index = function(t, k) R1, R2 = debug.getlocal(2, n) end}; local function g(p) local q = y; local w = p.missing; return w end; g(setmetatable({}, mt)); return R1, R2`, []string{"p", "q"}, []string{"t", "y"}},
+	{`local mt = {__add = function(a, b) R1, R2 = debug.getlocal(2, n); return 0 end}; local t = setmetatable({}, mt); for i = 1, 1 do local w = t + t end; return R1, R2`, []string{"mt", "t", "(for index)", "(for limit)", "(for step)", "i"}, []string{"t", "t", "1", "1", "1", "1"}},
 }
 
-//verif:harness prop=C17 tier=quick bounds="13 scope layouts (sequential and nested blocks, shadowing, local functions, if/while/repeat bodies left behind, queries from a function called as the last statement of a block / right after a declaration / inside an initialiser / in a loop body), index n in 1..8, 2 symbolic float64 values"
+//verif:harness prop=C17 tier=quick bounds="16 scope layouts (sequential and nested blocks, shadowing, local functions, if/while/repeat bodies left behind, queries from a function called as the last statement of a block / right after a declaration / inside an initialiser / in a loop body, and from __add / __index handlers fired by the first instruction of a scope), index n in 1..8, 2 symbolic float64 values"
 func H_C17_scopes() {
 	L := newL(Options{}, BaseLibName, DebugLibName)
 	x, y := VFloat("x"), VFloat("y")
@@ -238,6 +244,9 @@ func H_C17_scopes() {
 			VAssert(sameValue(L.Get(2), LNumber(y)), "scopes: its current value: "+t.src)
 		case "f":
 			_, ok := L.Get(2).(*LFunction)
+			VAssert(ok, "scopes: its current value: "+t.src)
+		case "t":
+			_, ok := L.Get(2).(*LTable)
 			VAssert(ok, "scopes: its current value: "+t.src)
 		default:
 			VAssert(L.Get(2) == LNumber(float64(int(v[0]-'0'))), "scopes: its current value: "+t.src)
